@@ -127,17 +127,26 @@ class Simulator:
 
                 # Derived parameters enter the symbolic model as numbers, so the
                 # compiled Jacobian is only valid for the parameter values it was
-                # compiled with: compile again when they have changed
+                # compiled with, and only for the model as it was then: compile
+                # again when the values have changed or the model was edited.
+                # Every edit discards the model's cache object; the conversion
+                # itself builds a new one, so the object to remember is the one
+                # that is in place AFTER compiling ("fn" comes first)
                 _compiled = {
-                    "values": tuple(self.model.get_parameter_values().values()),
                     "fn": _compile_jac(),
+                    "values": tuple(self.model.get_parameter_values().values()),
+                    "cache": self.model._cache,  # noqa: SLF001
                 }
 
                 def jac_fn(t: float, x: ArrayLike) -> ArrayLike:
                     values = tuple(self.model.get_parameter_values().values())
-                    if values != _compiled["values"]:
+                    if (
+                        values != _compiled["values"]
+                        or self.model._cache is not _compiled["cache"]  # noqa: SLF001
+                    ):
                         _compiled["fn"] = _compile_jac()
                         _compiled["values"] = values
+                        _compiled["cache"] = self.model._cache  # noqa: SLF001
                     return _compiled["fn"](t, x, list(values))
 
             except Exception as e:  # noqa: BLE001
